@@ -51,14 +51,13 @@ Definition role_rest (r : role) : list (string * pyval) :=
   opt_field "key_descriptor" (map enc_key (r_keys r)) ++
   flat_map (fun n => opt_field n (map enc_svc (filter (fun s => String.eqb (s_name s) n) (r_svcs r)))) SVC_ORDER ++
   opt_field "attribute_consuming_service" (map enc_acs (r_acs r)).
-(* r_protos = protocolSupportEnumeration.split(" ") *)
+(* r_protos = the ITEMS of protocolSupportEnumeration: value.split() (9be4974e; before: value.split(" ")).  The role
+   is encoded with its items joined by one blank; [protos_wf]: the list IS the split of that value (no empty item, no
+   white space inside an item) and the value is ASCII (str.split() also splits at non-ASCII spaces, which the
+   translator's p2_split_ws does not model: PErr) *)
 Definition enc_role (r : role) : pyval := PObj ((PSE, PStr (join " " (r_protos r))) :: role_rest r).
-Definition protos_wf (r : role) : Prop := split_on " "%char (join " " (r_protos r)) = r_protos r.
-
-Lemma protos_wf_iff r : protos_wf r <-> exists s, r_protos r = split_on " "%char s.
-Proof.
-  split; [intros H; eexists; symmetry; exact H|]. intros [s H]. unfold protos_wf. rewrite H, join_split. reflexivity.
-Qed.
+Definition protos_wf (r : role) : Prop :=
+  all_ascii (join " " (r_protos r)) = true /\ split_ws_go None (join " " (r_protos r)) = r_protos r.
 
 (* the dict form of an entity: "<kind>_descriptor" -> list of role descriptor dicts, in the order of mdstore's own
    list of kinds; kinds without a descriptor have no key *)
@@ -155,7 +154,7 @@ Definition prot_body : list pyval -> pyval -> ctl2 := fun st x => match st with 
 
 Definition item_body : list pyval -> pyval -> ctl2 := fun st x => match st with [v_item; v__res] =>
   (let v_item := x in
-   (py_bindS (fun n => (ExcS n [v_item; v__res])) (p2_iter_check (p2_split (p2_getitem v_item (PStr "protocol_support_enumeration")) (PStr " "))) (fun it =>
+   (py_bindS (fun n => (ExcS n [v_item; v__res])) (p2_iter_check (p2_split_ws (p2_getitem v_item (PStr "protocol_support_enumeration")))) (fun it =>
    (match pyfor2 (py_iter2 it) [v_item; v__res] prot_body with
     | NextS st' => match st' with [v_item; v__res] => (NextS [v_item; v__res]) | _ => (RetS PErr) end
     | BrkS st' => match st' with [v_item; v__res] => (NextS [v_item; v__res]) | _ => (RetS PErr) end
@@ -218,10 +217,11 @@ Lemma item_loop l : Forall protos_wf l -> forall j res, exists j',
 Proof.
   induction l as [|r l IH]; intros Hwf j res.
   - exists j. cbn. rewrite app_nil_r. reflexivity.
-  - inversion Hwf as [|? ? Hr Hl]; subst. cbn [map pyfor2]. unfold item_body at 1. cbv zeta.
+  - inversion Hwf as [|? ? [Ha Hr] Hl]; subst. cbn [map pyfor2]. unfold item_body at 1. cbv zeta.
     change (p2_getitem (enc_role r) (PStr "protocol_support_enumeration")) with (PStr (join " " (r_protos r))).
-    change (p2_split (PStr (join " " (r_protos r))) (PStr " ")) with (PList (map PStr (split_str " " (join " " (r_protos r))))).
-    rewrite split_str_char, Hr, p2_iter_check_list. cbn [py_bindS p2_bind py_iter2]. unfold enc_role at 1. rewrite prot_loop.
+    change (p2_split_ws (PStr (join " " (r_protos r))))
+      with (if all_ascii (join " " (r_protos r)) then PList (map PStr (split_ws_go None (join " " (r_protos r)))) else PErr).
+    rewrite Ha, Hr, p2_iter_check_list. cbn [py_bindS p2_bind py_iter2]. unfold enc_role at 1. rewrite prot_loop.
     unfold prune_roles. cbn [filter]. change (supports_saml2 r) with (mem NS_SAML2P (r_protos r)).
     destruct (mem NS_SAML2P (r_protos r)) eqn:E.
     + cbn [map]. rewrite enc_norm_role.
